@@ -146,7 +146,7 @@ func runC17(c *Ctx) {
 				continue
 			}
 			for v := 0; v < 8; v++ {
-				h := "hm" + strings.Repeat("|x", hc-1)
+				h := "zqhm" + strings.Repeat("|x", hc-1)
 				dl := strings.TrimSuffix(strings.Repeat([]string{"-|", ":-|", "-:|", ":-:|"}[v%4], dc), "|")
 				if v >= 4 {
 					h = "|" + h + "|"
@@ -154,6 +154,11 @@ func runC17(c *Ctx) {
 				}
 				body := "\n" + strings.TrimSuffix(strings.Repeat("y|", dc), "|") + "\n"
 				items = append(items, docItem{"header-mismatch", []byte(h + "\n" + dl + body)})
+				// the delimiter row as the last line, with and without a line end; in front of a
+				// Setext underline; inside a block quote and a list item
+				for _, d := range []string{h + "\n" + dl, h + "\n" + dl + "\n", h + "\n" + dl + "\n===\n", h + "\n" + dl + "\n---", "> " + h + "\n> " + dl, "- " + h + "\n  " + dl, "text\n" + h + "\n" + dl} {
+					items = append(items, docItem{"header-mismatch", []byte(d)})
+				}
 			}
 		}
 	}
@@ -220,7 +225,7 @@ func runC17(c *Ctx) {
 			}
 		}
 		// constructed mismatch documents (stream "header-mismatch"): no table at all
-		if (bytes.HasPrefix(d, []byte("hm")) || bytes.HasSuffix(d, []byte("zqmismatch\n"))) && len(shapes) > 0 {
+		if (bytes.Contains(d, []byte("zqhm")) || bytes.HasSuffix(d, []byte("zqmismatch\n"))) && len(shapes) > 0 {
 			return fmt.Sprintf("a header whose cell count differs from the delimiter row became a table; output %.300q", out), true
 		}
 		return "", len(shapes) > 0 || bytes.Contains(d, []byte("-|"))
